@@ -3,8 +3,38 @@
    Prop form: what "total" and "printing re-parses to the same tree" mean for
    a parser/printer pair; boolean form (the ORACLE): the same statement
    evaluated on what the implementation returned for one source text. *)
-From Yv Require Import Common.Base C06.Ast.
+From Yv Require Import Common.Base C06.Ast C06.Lex C06.Parse.
 From Yv Require Export C06.SpecLex.
+
+(* ---- operators (Operator::as_str) and what may follow them ------------------- *)
+
+Definition print_op (o : operator) : str :=
+  match o with
+  | OpNewline => [10] | OpAnd => [38] | OpAndAnd => [38; 38] | OpOpenParen => [40]
+  | OpCloseParen => [41] | OpSemicolon => [59] | OpSemicolonAnd => [59; 38]
+  | OpSemicolonSemicolon => [59; 59] | OpSemicolonSemicolonAnd => [59; 59; 38]
+  | OpSemicolonBar => [59; 124] | OpLess => [60] | OpLessAnd => [60; 38]
+  | OpLessOpenParen => [60; 40] | OpLessLess => [60; 60] | OpLessLessDash => [60; 60; 45]
+  | OpLessLessLess => [60; 60; 60] | OpLessGreater => [60; 62] | OpGreater => [62]
+  | OpGreaterAnd => [62; 38] | OpGreaterOpenParen => [62; 40] | OpGreaterGreater => [62; 62]
+  | OpGreaterGreaterBar => [62; 62; 124] | OpGreaterBar => [62; 124] | OpBar => [124]
+  | OpBarBar => [124; 124]
+  end%N.
+
+(* the characters that would turn the operator into a longer one *)
+Definition op_ext (o : operator) : list N :=
+  match o with
+  | OpAnd => [38] | OpSemicolon => [38; 59; 124] | OpSemicolonSemicolon => [38]
+  | OpLess => [38; 40; 60; 62] | OpLessLess => [45; 60] | OpGreater => [38; 40; 62; 124]
+  | OpGreaterGreater => [124] | OpBar => [124]
+  | _ => []
+  end%N.
+
+Definition op_follow_ok (o : operator) (h : option N) : Prop :=
+  match h with
+  | Some c => existsb (N.eqb c) (op_ext o) = false
+  | None => True
+  end.
 
 (* ---- Prop form ------------------------------------------------------------ *)
 
